@@ -142,6 +142,9 @@ def r061(chk, w):
     upT = {k: v for k, v in upT.items() if k not in both}
     upF = {k: v for k, v in upF.items() if k not in both}
     max_local = (bq if is_max(bq) else a)[1].split(":_")[-1]
+    if not max_local.isdigit():
+        chk.undecided("R06.1", "argmax-state", "the running maximum is a field of a compound accumulator (%s), not a loop-carried local: the update table cannot be derived" % max_local, site=C.site(b, hi))
+        return
     max_name = b.names().get(int(max_local))
     okT = len(upT) == 2 and max_name in upT and is_elem(upT[max_name]) and any(k != max_name and v[0] == "sym" and v[1].endswith("@Some.0.0") for k, v in upT.items())
     chk.ob("R06.1", "update-on-greater", okT, "on a greater score the loop updates %s (expected the index := i and the maximum := score)" % {k: str(v) for k, v in upT.items()}, site=C.site(b, hi))
